@@ -637,12 +637,16 @@ func (s *verifC32State) par(reqs []string) string {
 			s.m.handleHTTPUploadSession(recs[i], req)
 			codes[i] = recs[i].Code
 		}(i, req)
-		deadline := time.Now().Add(3 * time.Second)
+		deadline := time.Now().Add(10 * time.Second)
 		for time.Now().Before(deadline) {
 			mu.Lock()
-			acc := gated + finished
+			acc, inGate := gated+finished, gated
 			mu.Unlock()
-			if acc >= i+1 || acc+verifC32MutexBlocked() >= i+1 {
+			// a handler parked on a mutex counts only while some request sits in the gate (and so may hold the
+			// session lock for as long as the gate is shut); with nobody in the gate a parked handler is a
+			// transient state of a request that will be answered, and the harness waits for the answer — else
+			// the order of `par complete/… abort` would depend on the scheduler.
+			if acc >= i+1 || (inGate > 0 && acc+verifC32MutexBlocked() >= i+1) {
 				break
 			}
 			time.Sleep(500 * time.Microsecond)
